@@ -286,6 +286,26 @@ def run(facts, tier, ctx):
                 iv = {"Lt": c["const"] - 1, "Le": c["const"]}.get(c["op"])
                 if iv is not None and iv <= (1 << 31) - 1:
                     fn_ok = True
+        # second opinion: the effect interpreter's path facts at the call (checks moved into a `?`-called helper)
+        ipf = None
+        if True:
+            try:
+                ectx = E.Ctx(facts)
+                ectx.open_loops = True
+                ectx.collect_asserts = True
+                ectx.noinline = [re.escape(x) + "$" for x in frame_encoders] + [r"verify_samples$"]
+                ectx.log_calls = "|".join(re.escape(x) + "$" for x in frame_encoders)
+                E.Interp(ectx, b).run()
+                ipf = [c for c in ectx.calls if c[2] == where and c[3] == b.id]
+                fnp = None
+                for i_, nm in enumerate(b.raw.get("inputs") or []):
+                    if b.local_name(i_ + 1) == "frame_number":
+                        fnp = ("p", i_ + 1, ())
+                if ipf and fnp is not None and not fn_ok:
+                    import rules.lib_implicit as I_
+                    fn_ok = all((I_.Prover(facts, c[4] or [], {}).upper(fnp) or (1 << 63)) <= (1 << 31) - 1 for c in ipf)
+            except Exception:
+                ipf = None
         sample = {"function": b.id, "site": where}
         if fn_ok:
             od.ok(dict(sample, verdict="ok", clause="frame_number < 2^31 checked (`?`) before encoding"))
@@ -301,6 +321,9 @@ def run(facts, tier, ctx):
             for o in b.origins(t["args"][0]):
                 if o[0] == "call" and (o[2].get("fn") or {}).get("name") == "verify_samples":
                     vs_ok = True
+        if not vs_ok and ipf:
+            vs_ok = all(any(f_[0] == "okcall" and re.search(r"verify_samples$", f_[1].split("::<")[0]) for f_ in (c[4] or []))
+                        for c in ipf)
         if vs_ok:
             od.ok(dict(sample, verdict="ok", clause="FrameBuf::verify_samples(..)? dominates the frame encoder"))
         else:
